@@ -113,7 +113,9 @@ TFull == /\ IsEvent("Full") /\ FULL /\ Quiet /\ AllDone /\ UNCHANGED vars
          /\ Rel("Full.sigs", AllTrue(Ev.sigs) = \A v \in Vals, k \in Nodes : PartialsOK(k, v, Nodes, H) /\ RecPk(k, v, 1..par.t))
          /\ Rel("Full.samelock", Ev.samelock = \A v \in Vals : GkEq(v) /\ PsEq(v))
          /\ Rel("Full.deposit", Ev.deposit = \A v \in Vals, k \in Nodes : SigOK(k, v, Nodes, H))
-TraceNext == TReset \/ TNet \/ TAuto \/ TFull \/ TStart \/ TD1C \/ TD1P \/ TD2 \/ TRet1 \/ TRet2 \/ TCheck
+\* a p2p / full ceremony cut short by the real network's wall-clock timeouts: the recorded prefix stands, no verdict on the rest
+TStop == IsEvent("Stop") /\ l = TLen /\ UNCHANGED vars
+TraceNext == TReset \/ TNet \/ TAuto \/ TFull \/ TStart \/ TD1C \/ TD1P \/ TD2 \/ TRet1 \/ TRet2 \/ TCheck \/ TStop
 TraceSpec == TraceInit /\ [][TraceNext]_tvars
 Mark == /\ CheckInv("TypeOK", TypeOK) /\ CheckInv("NoFailure", NoFailure) /\ CheckInv("ThresholdIsT", ThresholdIsT)
         /\ CheckInv("Agreement", Agreement) /\ CheckInv("KeyedByShareIdx", KeyedByShareIdx)
